@@ -22,7 +22,7 @@ type Call struct {
 	Tag   string `json:"tag,omitempty"`
 	Rule  int    `json:"r,omitempty"`
 	Fn    int    `json:"f,omitempty"`
-	Shape int    `json:"s,omitempty"` // 0 pointer, 1 value, 2 slice of pointers, 3 map of pointers, 4 array of values
+	Shape int    `json:"s,omitempty"` // 0 pointer, 1 value, 2 slice of pointers, 3 map of pointers, 4 array of values, 5 typed nil pointer, 6 nil
 	U     string `json:"u,omitempty"` // histories with global registrations: the suffix that makes this history's rule names unique in the process
 }
 
@@ -292,6 +292,10 @@ func (c Call) build() *args {
 			trimMaps(v)
 		}
 		switch shape {
+		case 5:
+			a.src = reflect.Zero(reflect.TypeOf(v)).Interface() // a typed nil pointer
+		case 6:
+			a.src = nil
 		case 0:
 			a.src = v
 		case 1:
